@@ -20,6 +20,7 @@ RULE = ('random constant expressions of depth <= 5 over all arithmetic, comparis
         'branch condition, declaration initialiser and !truth_is_defeat argument; each compiled in constant form and as run-time twin at word '
         'sizes 2,3,4; non-trivial = the expression has >= 2 operators and hidc folded it completely; distinct by (expression text, word)')
 ASSUMPTIONS = common.ISA_ASSUMPTIONS[:3] + ['the twin replaces each literal v by (zz + v) / ((zz + v) is byte) / (zz == 0) with a mutable global zz = 0']
+REQUIRED_HIDC_FUNCTIONS = ['ast/operators:ArithmeticOp.simplify', 'ast/operators:BooleanOp.simplify']     # M-COV: deciding code never entered => inconclusive
 MIN_NONTRIVIAL = {'quick': 1200, 'thorough': 10000}
 MAX_STEPS = 300_000
 
